@@ -186,6 +186,13 @@ def apply_tamper(W, name, rng):
         po.tx_out.script_pubkey = spk
         ps.tx_obj.tx_outs[1].script_pubkey = spk
         outs[1]["spk"]["shape"] = name.split("-")[0]
+    elif name == "only-pay-back-to-one-cosigner-input":
+        # the same, in place of the honest change output (so that it is the only candidate for the change label)
+        to = TxOut(ps.tx_obj.tx_outs[1].amount, W["onecos_spk"])
+        ps.tx_obj.tx_outs[1] = to
+        ps.psbt_outs[1] = PSBTOut(to)
+        tags = ["chg", "alt", "alt2", "alt3", "alt4"]
+        outs[1] = {"spk": {"m": m, "keys": [[1, tags[k]] for k in range(n)]}, "named": []}
     elif name == "pay-back-to-one-cosigner-input":
         # an output without any metadata pays to the script of an input that holds n keys of one cosigner
         to = TxOut(1500, W["onecos_spk"])
@@ -291,7 +298,7 @@ def apply_tamper(W, name, rng):
     return outs, ok_inputs
 
 
-TAMPERS = ["none", "pay-back-to-one-cosigner-input", "backdoor-script", "nslot-script", "change-quorum-up", "two-spends-one-address", "input-stray-witness-script", "two-from-one-cosigner", "input-derivation-path-of-another-input", "swap-spk", "swap-spk-p2pkh", "swap-spk-p2wpkh", "swap-spk-p2sh", "swap-spk-p2wsh", "swap-spk-p2tr", "second-change-first", "second-change-middle", "foreign-script", "foreign-script-named", "one-cosigner", "wrong-path", "foreign-xfp", "change-quorum", "second-change",
+TAMPERS = ["none", "pay-back-to-one-cosigner-input", "only-pay-back-to-one-cosigner-input", "backdoor-script", "nslot-script", "change-quorum-up", "two-spends-one-address", "input-stray-witness-script", "two-from-one-cosigner", "input-derivation-path-of-another-input", "swap-spk", "swap-spk-p2pkh", "swap-spk-p2wpkh", "swap-spk-p2sh", "swap-spk-p2wsh", "swap-spk-p2tr", "second-change-first", "second-change-middle", "foreign-script", "foreign-script-named", "one-cosigner", "wrong-path", "foreign-xfp", "change-quorum", "second-change",
            "spend-as-change", "input-foreign-script", "input-wrong-derivation", "input-foreign-xfp", "input-altered-prev-tx", "input-quorum-mismatch"]
 
 
@@ -305,7 +312,7 @@ def one_job(args):
     rng = random.Random(seed + 7)
     cases = []
     for mode in ("object", "reparsed"):
-        W = build(kind, m, n, random.Random(seed + wi), global_xpubs=global_xpubs, onecos_input=(tname == "pay-back-to-one-cosigner-input"))
+        W = build(kind, m, n, random.Random(seed + wi), global_xpubs=global_xpubs, onecos_input=tname.endswith("pay-back-to-one-cosigner-input"))
         t = outcome(apply_tamper, W, tname, rng)
         if t[0] != "ok" or t[1] is None:
             continue
